@@ -25,19 +25,27 @@ def judge (f out : List String) : Verdict :=
       detail := if out == m then "" else lineOf m }
   | ["variants", s] =>
     let cs := s.toList
-    let m := match allVariants cs with
-      | some vs => ["ok", ",".intercalate (vs.map String.ofList)]
-      | none => ["err"]
     let inDom := cs.all Spec.isIupac15
+    let count := Spec.readingCount cs
+    let tooMany := count > maxInt32
+    -- the harness replies `ok <number of variants> <variants joined by ','>`
+    let parse := fun (o : List String) => match o with
+      | ["ok", n, vs] => some (if n == "0" then ([] : List Str) else (vs.splitOn ",").map String.toList)
+      | _ => none
     let outN := match out with | "err" :: _ => ["err"] | o => o
-    let j := match out with
-      | ["ok", vs] =>
-        let got := if cs.isEmpty then [[]] else (vs.splitOn ",").map String.toList
-        Spec.isExpansion cs got
-      | _ => false
-    { corr := outN == m, judge := if inDom then some j else none,
-      cls := (if cs.all Spec.isAcgt then "triv:" else "") ++ "variants",
-      detail := if outN == m then "" else lineOf m }
+    -- enumerating is only feasible for moderate expansions; beyond MaxInt32 the spec demands an error
+    if tooMany || count ≤ 2000000 then
+      let m := match allVariants cs with
+        | some vs => ["ok", toString vs.length, ",".intercalate (vs.map String.ofList)]
+        | none => ["err"]
+      let j := if tooMany then outN == ["err"] else
+        match parse out with
+        | some got => Spec.isExpansion cs got
+        | none => false
+      { corr := outN == m, judge := if inDom then some j else none,
+        cls := (if cs.all Spec.isAcgt then "triv:" else "") ++ (if tooMany then "variants/too-many" else "variants"),
+        detail := if outN == m && j then "" else (if tooMany then "err" else lineOf (m.take 2)) }
+    else { corr := true, judge := none, cls := "variants/skipped-too-large-to-enumerate" }
   | _ => { corr := false, judge := none, cls := "bad-case", detail := "bad case" }
 
 def driver : PropDriver := { render, judge }
